@@ -261,6 +261,8 @@ def tr(t: list, position: str = "param") -> tuple:
             results = tuple(tr(x) for x in r[1])
         else:
             results = (tr(r),)
+        if results == (N,):  # a callable returning only None has no result ('-> ()'), however None is spelled
+            results = ()
         return ("C", tuple(tr(x) for x in t[1]), results)
     if k == "generic":
         return ("named", short_name(t[1]), tuple(tr(x) for x in t[2]))
@@ -291,7 +293,7 @@ def canon(s: tuple | None) -> tuple | None:
             members.append(N)
         return mk_union(members) if members else ("L", frozenset())
     if k == "callable":
-        return ("C", tuple(canon(x) for _, x in s[1]), tuple(canon(x) for _, x in s[2]))
+        return ("C", tuple(canon(x) for _, x in s[1]), tuple(canon(x) for _, x in s[2]))  # (N,) results are folded below
     if k == "unknown":
         return ("unknown",)
     raise ValueError(s)
@@ -311,7 +313,8 @@ def canon_fix_nothing(c: tuple | None) -> tuple | None:
     if k == "named":
         return ("named", c[1], tuple(canon_fix_nothing(a) for a in c[2]))
     if k == "C":
-        return ("C", tuple(canon_fix_nothing(a) for a in c[1]), tuple(canon_fix_nothing(a) for a in c[2]))
+        results = tuple(canon_fix_nothing(a) for a in c[2])
+        return ("C", tuple(canon_fix_nothing(a) for a in c[1]), () if results == (N,) else results)
     return c
 
 
